@@ -1,6 +1,7 @@
 (* C03 -- statements that are FALSE of the faithful model (findings). *)
 From Coq Require Import ZArith NArith List Bool.
-From VV Require Import Base.F64 Mep.Genome Sig.Bits64 Sig.Murmur Sig.SigDefs Sig.SigProofs.
+From VV Require Import Base.F64 Mep.Genome Mep.OpsDefs.
+From VV Require Import Sig.Bits64 Sig.Murmur Sig.SigDefs Sig.SigProofs Sig.CseDefs.
 Import ListNotations.
 Local Open Scope N_scope.
 
@@ -56,3 +57,27 @@ Proof.
   split; [reflexivity|]. intros [H|H]; vm_compute in H; discriminate.
 Qed.
 Print Assumptions C03_mep_iterator_write_refuted.
+
+(* i_mep::cse() with the comparator a.par < b.par (the tree before
+   "fix: i_mep::cse() merges the constants +0.0 and -0.0"): +0.0 and -0.0 are
+   equivalent keys, F(+0.0, -0.0) becomes F(-0.0, -0.0): the packed stream, hence
+   the signature, changes while cse() keeps the cached one.  Replayed on the real
+   code: MEP 1 3 | 0 0 0,0=4:-:1,2 1,0=2:0000000000000000:- 2,0=2:8000000000000000:- | .. | S C S *)
+Definition rC := mk_sym 2 0 [] true.
+Definition rF := mk_sym 4 0 [0%nat; 0%nat] false.
+Definition r_zeros : genome :=
+  {| rows := 3; cats := 1; best := mk_locus 0 0;
+     cell := fun r c => match r, c with
+                        | 0, 0 => Some (mk_gene rF F64.zero [1; 2]) | 1, 0 => Some (mk_gene rC F64.zero [])
+                        | 2, 0 => Some (mk_gene rC (F64.neg F64.zero) []) | _, _ => None end%nat |}.
+Theorem C03_cse_ltb_merges_signed_zeros_refuted :
+  exists g', cse_ltb r_zeros = Some g' /\ mep_pack g' <> mep_pack r_zeros /\ hash_mep g' <> hash_mep r_zeros /\
+             exists x y, cache_ok hash_mep x /\ content x = r_zeros /\ y = keep x g' /\ ~ cache_ok hash_mep y.
+Proof.
+  destruct (cse_ltb r_zeros) as [g'|] eqn:E; [|vm_compute in E; discriminate]. exists g'. split; [reflexivity|].
+  vm_compute in E. inversion E. subst g'. split; [vm_compute; discriminate|]. split; [vm_compute; discriminate|].
+  destruct (signature hash_mep (clear r_zeros)) as [[h x]|] eqn:Es; [|vm_compute in Es; discriminate].
+  exists x. eexists. vm_compute in Es. inversion Es. subst. split; [right; vm_compute; reflexivity|].
+  split; [reflexivity|]. split; [reflexivity|]. intros [H|H]; vm_compute in H; discriminate.
+Qed.
+Print Assumptions C03_cse_ltb_merges_signed_zeros_refuted.
